@@ -241,10 +241,26 @@ def optlit(x, f=str):
   return "None" if x is None else f"(Some {f(x)})"
 
 
+def ensure_header_built(header):
+  """The modules a case file imports (Model/*Corr.vo and what they need) are not in the cone of any Props target: build them (full
+  .vo, under the build lock) before the case files are compiled, so that an edited model never meets a stale Corr object file."""
+  mods = set()
+  for m in re.finditer(r"From\s+LV\s+Require\s+(?:Import\s+|Export\s+)?([^.]*(?:\.[A-Za-z_][^.]*)*)\.(?:\s|$)", header):
+    for w in m.group(1).split():
+      if re.fullmatch(r"[A-Za-z_][\w]*(\.[A-Za-z_][\w]*)+", w):
+        mods.add(w)
+  targets = [m.replace(".", "/") + ".vo" for m in sorted(mods) if os.path.exists(os.path.join(COQ, m.replace(".", "/") + ".v"))]
+  if targets:
+    ok, log = coq_make(targets)
+    if not ok:
+      raise TieBroken(f"the model files imported by the case files do not build: {log[-1500:]}")
+
+
 def run_cases(name, header, case_type, check_fn, cases, shard=250, timeout=900, jobs=16):
   """Evaluate `check_fn : case_type -> bool` on every case (Coq terms, strings) inside Coq with vm_compute.
   Returns the indices of the cases on which it is false."""
   os.makedirs(os.path.join(COQ, "Cases"), exist_ok=True)
+  ensure_header_built(header)
   shards = [cases[i:i + shard] for i in range(0, len(cases), shard)]
   procs = []
   tag = f"{name}_{os.getpid()}"
@@ -294,6 +310,7 @@ def run_cases(name, header, case_type, check_fn, cases, shard=250, timeout=900, 
 def coq_eval(name, header, exprs, timeout=600):
   """Evaluate a list of closed Coq expressions with vm_compute and return their printed normal forms (strings)."""
   os.makedirs(os.path.join(COQ, "Cases"), exist_ok=True)
+  ensure_header_built(header)
   path = os.path.join(COQ, "Cases", f"{name}_{os.getpid()}.v")
   body = [header, "Import ListNotations."]
   for i, e in enumerate(exprs):
